@@ -269,16 +269,19 @@ pub fn eval(expr: Node) -> Result<f64, Box<dyn error::Error>> {
             let mut result = 0.0;
             let mut scaled = 0.0;
             let len = args.len() as f64;
+            // a power of two not above 1 / len: scaling by it is exact and the scaled sum cannot overflow
+            let scale = (2.0f64).powi(-(len.max(1.0).log2().ceil() as i32));
             for arg in <Vec<Node> as Clone>::clone(&args).into_iter() {
                 #[cfg(feature = "verif_hooks")]
                 crate::verif_hooks::tick(crate::verif_hooks::Point::EvalLoop);
                 let value = eval(arg)?;
                 result += value;
-                scaled += value / len;
+                scaled += value * scale;
             }
             if result.is_infinite() && scaled.is_finite() {
-                // the sum overflows although the mean does not (avg(1e308, 1e308))
-                return Ok(scaled);
+                // the sum overflows although the mean does not (avg(1e308, 1e308)): the mean of the scaled terms,
+                // which is still right when it is f64::MAX itself
+                return Ok(scaled / len / scale);
             }
             Ok(result / len)
         }
